@@ -125,6 +125,11 @@ func values(r *mc.Run) []V3 {
 			all = append(all, V3{e, u, ""}, V3{e, u, "10"}, V3{e, u, "100"})
 		}
 	}
+	// digit runs around the machine word sizes, plain and zero-padded to more characters than a larger value has
+	for _, run := range []string{"99", "0000000000000000000099", "100", "00000000000000000000100", "4294967295", "4294967296", "9223372036854775807", "9223372036854775808",
+		"18446744073709551615", "18446744073709551616", "20240101120000123456", "020240101120000123456"} {
+		all = append(all, V3{0, run, ""}, V3{0, "0~git." + run, ""}, V3{0, "1", run})
+	}
 	// alphabet audit: values a change introduced into the code (strings, characters, numbers)
 	for _, t := range append(append(gen.AuditStrings(gen.Versionish, 8), gen.AuditChars(gen.Versionish, 3)...), gen.AuditIntStrings(0, 1<<62, 9)...) {
 		for _, e := range []uint{0, 1} {
